@@ -81,6 +81,11 @@ pub struct TimelineScn {
     /// the issuer restricts the credential to the verifier's audience (top-level `aud`)
     #[serde(default)]
     pub issuer_aud: bool,
+    /// the issuer-signed JWT carries this `typ` header (the library's own issuer writes none;
+    /// other issuers write sd+jwt, vc+sd-jwt, dc+sd-jwt, example+sd-jwt …): same payload, same
+    /// disclosures, signed by the same key with that header
+    #[serde(default)]
+    pub typ: Option<String>,
 }
 
 const Y: i64 = 365 * 86400;
@@ -199,6 +204,7 @@ pub fn gen_c09(rng: &mut Rng, tier: Tier) -> Result<Value, serde_json::Error> {
         fmt: rand_fmt(rng),
         events,
         issuer_aud: rng.chance(1, 10),
+        typ: if rng.chance(1, 4) { Some(rng.pick(&["sd+jwt", "vc+sd-jwt", "dc+sd-jwt", "example+sd-jwt", "JWT", "jwt", "application/dc+sd-jwt", "kb+jwt", ""]).to_string()) } else { None },
     };
     serde_json::to_value(s)
 }
@@ -299,6 +305,25 @@ pub fn execute(scn_v: &Value) -> RunReport {
         rep.count("creds_not_issued");
         rep.sample = Some(json!({"note": "credential not issued", "issue": issued.describe()}));
         return finish(rep, w, nontrivial, states);
+    };
+    let sdjwt = match (&scn.typ, Message::parse(&sdjwt, scn.fmt)) {
+        (Some(typ), Some(mut m)) if !scn.issuer.key.starts_with("hs") || true => {
+            let alg = scn.issuer.alg.clone().unwrap_or_else(|| crate::keys::alg_of(&scn.issuer.key).to_string());
+            match world::payload_of(&m).and_then(|p| w.byz_sign(&scn.issuer.key, &alg, Some(typ.as_str()), &Value::Object(p))) {
+                Some(t) => {
+                    let v: Vec<&str> = t.split('.').collect();
+                    if v.len() == 3 {
+                        m.h = v[0].into();
+                        m.p = v[1].into();
+                        m.s = v[2].into();
+                    }
+                    rep.count("fault.issuer_jwt_with_typ_header");
+                    m.serialize(scn.fmt).unwrap_or(sdjwt)
+                }
+                None => sdjwt,
+            }
+        }
+        _ => sdjwt,
     };
     // The nbf clause is about the *issuer-signed* nbf: under TopLevel / AllLevels the issuer makes a
     // user-supplied nbf selectively disclosable (C05: only iss, iat, exp always stay visible), and
